@@ -67,6 +67,12 @@ class C06(Engine):
             rng.shuffle(cand)
             sp += cand[:n]
         self.stress = sp[:want]
+        self.by_name = {}
+        self.by_stem = {}
+        for fid in sorted(P.files):
+            nm = P.files[fid]["name"]
+            self.by_name.setdefault(nm, []).append(fid)
+            self.by_stem.setdefault(nm.rsplit(".", 1)[0], []).append(fid)
         self.count("pool_classes", "total", 0)
         for fid in P.files:
             self.count("pool_classes", P.cls[fid])
@@ -108,6 +114,14 @@ class C06(Engine):
                 ops.append({"op": "api", "file": fid, "debug": d, "R": R})
             if r.random() < 0.2:     # the same file twice
                 ops.append(dict(ops[r.randrange(len(ops))]))
+            if r.random() < 0.3:     # a *different* file of the same name (or the same stem) later in the history: name-keyed state
+                k = r.randrange(len(ops))
+                nm = P.files[ops[k]["file"]]["name"]
+                stem = nm.rsplit(".", 1)[0]
+                same = self.by_name.get(nm, []) if r.random() < 0.6 else self.by_stem.get(stem, [])
+                same = [f for f in same if f != ops[k]["file"]]
+                if same:
+                    ops.insert(r.randrange(k + 1, len(ops) + 1), {"op": "api", "file": same[r.randrange(len(same))], "debug": 0, "R": None})
             if r.random() < 0.15:    # a predecessor whose read fails in the middle of the history (I/O fault at the read seam)
                 k = r.randrange(len(ops) - 1)
                 ops[k] = dict(ops[k])
